@@ -7,7 +7,7 @@
    and texts of any length, bundles with any number of policies and assets. *)
 From CSL Require Import Base.Prelude Base.U64 Cbor.Head Num.Decimal Num.U64 Num.IntRange Num.BigIntCbor Num.Value.
 From CSL Require Import Num.U64Proofs Num.DecimalProofs Num.IntRangeProofs Num.BigIntCborProofs Num.ValueProofs.
-From CSL Require Import Num.C14Model Num.C14ModelProofs.
+From CSL Require Import Num.Mint Num.MintProofs Num.C14Model Num.C14ModelProofs.
 Local Open Scope N_scope.
 
 (* ---------------------------------------------------------------------------------------------------------------- *)
@@ -113,6 +113,30 @@ Print Assumptions C14_int_accessors_exact.
 Theorem C14_int_as_negative_refuted : int_in_range int_min = true /\ int_as_negative int_min = Some 0.
 Proof. exact int_as_negative_refuted. Qed.
 Print Assumptions C14_int_as_negative_refuted.
+
+(* Mint::as_positive_multiasset / as_negative_multiasset report, for every asset, exactly the minted / burnt quantity (the sum
+   over the entries of the policy) -- outside the two known classes: a policy that occurs in two entries, and a quantity -2^64 *)
+Theorem C14_mint_as_multiasset_exact : forall (is_positive : bool) (m : mint),
+  mint_wfb m = true -> mint_has_min m = false -> has_dup_policy m = false ->
+  ma_wfb (mint_as_multiasset is_positive m) = true /\
+  forall p n, Z.of_N (ma_qty (mint_as_multiasset is_positive m) p n) = mint_spec_qty is_positive m p n.
+Proof. intros s m W M D. apply mint_as_multiasset_exact; [apply mint_ok_of_bool; assumption | exact D]. Qed.
+Print Assumptions C14_mint_as_multiasset_exact.
+
+Example C14_mint_as_multiasset_example :
+  let m := [([1], [([97], 5%Z); ([98], (- int_max)%Z)]); ([2], [([], int_max)]); ([3], [])] in
+  mint_wfb m = true /\ mint_has_min m = false /\ has_dup_policy m = false /\
+  mint_as_positive_multiasset m = [([1], [([97], 5)]); ([2], [([], two64 - 1)])] /\
+  mint_as_negative_multiasset m = [([1], [([98], two64 - 1)])].
+Proof. exact mint_as_multiasset_example. Qed.
+
+Theorem C14_mint_as_multiasset_refuted :
+  (let m := [([1], [([97], 5%Z)]); ([1], [([98], 7%Z)])] in
+   mint_spec_qty true m [1] [97] = 5%Z /\ ma_qty (mint_as_positive_multiasset m) [1] [97] = 0) /\
+  (let m := [([1], [([97], int_min)])] in
+   mint_spec_qty false m [1] [97] = two64Z /\ ma_qty (mint_as_negative_multiasset m) [1] [97] = 0).
+Proof. split; [exact mint_dup_policy_refuted | exact mint_min_refuted]. Qed.
+Print Assumptions C14_mint_as_multiasset_refuted.
 
 (* ---------------------------------------------------------------------------------------------------------------- *)
 (* Big integers *)
@@ -231,12 +255,13 @@ Theorem C14_judge_accepts_model :
      judge_int src (model_int src) = Holds \/
      (judge_int src (model_int src) = Fails cls_as_negative /\ int_obtain src = Some int_min)) /\
   (forall ops, forallb (fun op => int_in_range (mint_op_amount op)) ops = true -> judge_mint ops (model_mint ops) = Holds) /\
+  (forall m, mint_wfb m = true -> mint_has_min m = false -> has_dup_policy m = false -> judge_mintv m (model_mintv m) = Holds) /\
   (forall z, judge_biz z (model_biz z) = Holds) /\
   (forall bs, judge_bibytes bs (model_bibytes bs) = Holds \/ model_bibytes bs = OutOfFuel) /\
   (forall a b, value_wf a -> value_wf b -> judge_val a b (model_val a b) = Holds) /\
   (forall a b c, value_wf a -> value_wf b -> value_wf c -> judge_val3 a b c (model_val3 a b c) = Holds).
 Proof.
-  split; [exact judge_bn_accepts|]. split; [exact judge_int_accepts|]. split; [exact judge_mint_accepts|].
+  split; [exact judge_bn_accepts|]. split; [exact judge_int_accepts|]. split; [exact judge_mint_accepts|]. split; [exact judge_mintv_accepts|].
   split; [exact judge_biz_accepts|]. split; [exact judge_bibytes_accepts|]. split; [exact judge_val_accepts | exact judge_val3_accepts].
 Qed.
 Print Assumptions C14_judge_accepts_model.
